@@ -1,11 +1,418 @@
+// govc: contract-based deductive verification of Go functions via go/ssa symbolic execution and SMT.
 package main
 
 import (
+	"encoding/json"
+	"flag"
 	"fmt"
+	"os"
+	"path/filepath"
+	"regexp"
+	"sort"
+	"strings"
+	"sync"
+	"time"
 
-	_ "golang.org/x/tools/go/packages"
-	_ "golang.org/x/tools/go/ssa"
-	_ "golang.org/x/tools/go/ssa/ssautil"
+	"govc/engine"
+	"govc/smt"
 )
 
-func main() { fmt.Println("govc") }
+func main() {
+	if len(os.Args) < 2 {
+		fmt.Fprintln(os.Stderr, "usage: govc check|list ...")
+		os.Exit(2)
+	}
+	switch os.Args[1] {
+	case "check":
+		os.Exit(cmdCheck(os.Args[2:]))
+	case "list":
+		os.Exit(cmdList(os.Args[2:]))
+	default:
+		fmt.Fprintln(os.Stderr, "unknown command", os.Args[1])
+		os.Exit(2)
+	}
+}
+
+func cmdList(args []string) int {
+	fs := flag.NewFlagSet("list", flag.ExitOnError)
+	repo := fs.String("repo", "/repo", "repository")
+	fs.Parse(args)
+	w, err := engine.Load(*repo, "verif")
+	if err != nil {
+		fmt.Fprintln(os.Stderr, err)
+		return 2
+	}
+	for _, h := range w.Harnesses {
+		fmt.Printf("%-8s %-60s props=%s target=%s\n", h.Kind, h.Name, strings.Join(h.Props, ","), h.Target)
+	}
+	return 0
+}
+
+type findingsFile struct {
+	Findings []finding `json:"findings"`
+	Fixed    []string  `json:"fixed"`
+}
+
+type finding struct {
+	ID          string   `json:"id"`
+	Properties  []string `json:"properties"`
+	Obligations []string `json:"obligations"` // obligation names (prefix match up to '@')
+	What        string   `json:"what"`
+	Scenario    string   `json:"scenario,omitempty"`
+}
+
+func cmdCheck(args []string) int {
+	fs := flag.NewFlagSet("check", flag.ExitOnError)
+	repo := fs.String("repo", "/repo", "repository to verify (current working tree)")
+	prop := fs.String("prop", "", "property id (harnesses tagged with it are run)")
+	tier := fs.String("tier", "quick", "quick|thorough")
+	only := fs.String("harness", "", "regexp restricting harness names")
+	out := fs.String("evidence", "", "evidence file to write")
+	kfPath := fs.String("findings", "/verif/known_findings.json", "known findings file")
+	replayDir := fs.String("replays", "/verif/replays", "directory for replay files")
+	timeout := fs.Int("timeout", 0, "per-obligation solver timeout in seconds (default: 20 quick, 120 thorough)")
+	verbose := fs.Bool("v", false, "verbose")
+	jobs := fs.Int("j", 8, "parallel solver races")
+	fs.Parse(args)
+	t0 := time.Now()
+	seed := 0
+	if s := os.Getenv("VERIF_SEED"); s != "" {
+		fmt.Sscan(s, &seed)
+	}
+	if *timeout == 0 {
+		*timeout = 20
+		if *tier == "thorough" {
+			*timeout = 120
+		}
+	}
+	need := 1
+	if *tier == "thorough" {
+		need = 2
+	}
+	w, err := engine.Load(*repo, "verif")
+	if err != nil {
+		fmt.Fprintln(os.Stderr, "govc: cannot load", *repo, ":", err)
+		// a tree that does not build cannot be judged: report as engine error
+		fmt.Printf("ERROR property=%s load failed\n", *prop)
+		return 2
+	}
+	loadSec := time.Since(t0).Seconds()
+	var re *regexp.Regexp
+	if *only != "" {
+		re = regexp.MustCompile(*only)
+	}
+	var hs []*engine.Harness
+	for _, h := range w.Harnesses {
+		if *prop != "" && !contains(h.Props, *prop) {
+			continue
+		}
+		if re != nil && !re.MatchString(h.Name) {
+			continue
+		}
+		hs = append(hs, h)
+	}
+	if len(hs) == 0 {
+		fmt.Printf("ERROR property=%s no harness selected (vacuous check)\n", *prop)
+		return 2
+	}
+	tmp, err := os.MkdirTemp("", "govc-")
+	if err != nil {
+		fmt.Fprintln(os.Stderr, err)
+		return 2
+	}
+	defer os.RemoveAll(tmp)
+
+	// generate (parallel, one engine per harness), prepare, then discharge
+	results := make([]*engine.HarnessResult, len(hs))
+	var wg sync.WaitGroup
+	sem := make(chan struct{}, 16)
+	for i, h := range hs {
+		wg.Add(1)
+		go func(i int, h *engine.Harness) {
+			defer wg.Done()
+			sem <- struct{}{}
+			defer func() { <-sem }()
+			r := w.Generate(h)
+			for _, o := range r.Obls {
+				o.Prepare()
+			}
+			results[i] = r
+		}(i, h)
+	}
+	wg.Wait()
+	genSec := time.Since(t0).Seconds() - loadSec
+	solvers := smt.DefaultSolvers(*timeout)
+	var all []*engine.Obligation
+	for _, r := range results {
+		all = append(all, r.Obls...)
+	}
+	sem2 := make(chan struct{}, *jobs)
+	for _, o := range all {
+		wg.Add(1)
+		go func(o *engine.Obligation) {
+			defer wg.Done()
+			sem2 <- struct{}{}
+			defer func() { <-sem2 }()
+			o.Discharge(solvers, tmp, *timeout, need)
+			if o.Status == "undecided" && need == 2 {
+				// thorough: accept a single definitive answer but record it
+				o.Discharge2(solvers, tmp, *timeout)
+			}
+		}(o)
+	}
+	wg.Wait()
+
+	// known findings
+	var kf findingsFile
+	if b, err := os.ReadFile(*kfPath); err == nil {
+		if err := json.Unmarshal(b, &kf); err != nil {
+			fmt.Fprintln(os.Stderr, "govc: bad findings file:", err)
+			return 2
+		}
+	}
+	matchFinding := func(name string) *finding {
+		base := name
+		if i := strings.Index(base, "@"); i >= 0 {
+			base = base[:i]
+		}
+		for i := range kf.Findings {
+			f := &kf.Findings[i]
+			if *prop != "" && !contains(f.Properties, *prop) {
+				continue
+			}
+			for _, o := range f.Obligations {
+				if o == base || o == name {
+					return f
+				}
+			}
+		}
+		return nil
+	}
+
+	type oblEv struct {
+		Name    string  `json:"name"`
+		Kind    string  `json:"kind"`
+		Status  string  `json:"status"`
+		Solver  string  `json:"solver,omitempty"`
+		Seconds float64 `json:"seconds"`
+		Size    int     `json:"smt_nodes"`
+		Pos     string  `json:"pos,omitempty"`
+	}
+	var evObls []oblEv
+	nObl, nDis, nCover, nKnown, nViol := 0, 0, 0, 0, 0
+	solverSec := 0.0
+	bySolver := map[string]int{}
+	trusted := map[string]bool{}
+	var fnsUnder []string
+	var samples []interface{}
+	var knownLines, violLines []string
+	seenKF := map[string]bool{}
+	os.MkdirAll(filepath.Join(*replayDir, *prop), 0o755)
+	for _, r := range results {
+		h := r.Harness
+		fnsUnder = append(fnsUnder, h.Name+targetSuffix(h))
+		for _, t := range r.Trusted {
+			trusted[t] = true
+		}
+		if r.Err != "" {
+			// the engine could not process the harness: undecided, never a pass
+			name := h.Name + "#engine"
+			if f := matchFinding(name); f != nil {
+				if !seenKF[f.ID] {
+					knownLines = append(knownLines, fmt.Sprintf("KNOWN-FINDING: property=%s %s: %s", *prop, f.ID, f.What))
+					seenKF[f.ID] = true
+				}
+				nKnown++
+				continue
+			}
+			path := writeReplay(*replayDir, *prop, name, "engine could not process harness (outside the accepted subset or internal error):\n"+r.Err, nil)
+			violLines = append(violLines, fmt.Sprintf("VIOLATION property=%s replay=%s obligation=%s undecided: %s no-failing-input-found", *prop, path, name, firstLine(r.Err)))
+			nViol++
+			nObl++
+			evObls = append(evObls, oblEv{Name: name, Kind: "engine", Status: "error"})
+			continue
+		}
+		for _, o := range r.Obls {
+			ev := oblEv{Name: o.Name, Kind: string(o.Kind), Status: o.Status, Solver: o.Solver, Seconds: round3(o.Seconds), Size: o.Size, Pos: o.Pos}
+			solverSec += o.Seconds
+			if *verbose {
+				fmt.Printf("  %-12s %-90s %s %.2fs n=%d %v\n", o.Status, o.Name, o.Solver, o.Seconds, o.Size, o.Others)
+			}
+			if o.Kind == engine.KindCover {
+				nCover++
+				if o.Status != "covered" {
+					path := writeReplay(*replayDir, *prop, o.Name, "vacuity guard failed: "+o.Msg+" status="+o.Status, o)
+					violLines = append(violLines, fmt.Sprintf("VIOLATION property=%s replay=%s obligation=%s vacuous-or-undecided-cover no-failing-input-found", *prop, path, o.Name))
+					nViol++
+				}
+				evObls = append(evObls, ev)
+				continue
+			}
+			if o.Status == "trivially-true" {
+				continue // not counted: nothing was asked of a solver
+			}
+			if f := matchFinding(o.Name); f != nil {
+				// excused obligation: reported separately, not counted as discharged
+				if o.Status != "discharged" {
+					if !seenKF[f.ID] {
+						knownLines = append(knownLines, fmt.Sprintf("KNOWN-FINDING: property=%s %s: %s [obligation %s: %s]", *prop, f.ID, f.What, o.Name, o.Status))
+						seenKF[f.ID] = true
+					}
+					nKnown++
+				} else {
+					fmt.Printf("NOTE: obligation %s listed under finding %s now discharges\n", o.Name, f.ID)
+				}
+				ev.Status = "known-finding:" + f.ID + ":" + o.Status
+				evObls = append(evObls, ev)
+				continue
+			}
+			nObl++
+			evObls = append(evObls, ev)
+			switch o.Status {
+			case "discharged":
+				nDis++
+				bySolver[o.Solver]++
+				if len(samples) < 4 && o.Kind != engine.KindSafety {
+					samples = append(samples, map[string]interface{}{"obligation": o.Name, "kind": o.Kind, "pos": o.Pos, "what": o.Msg, "smt_nodes": o.Size, "solver": o.Solver, "seconds": round3(o.Seconds)})
+				}
+			case "failed":
+				path := writeReplay(*replayDir, *prop, o.Name, "", o)
+				suffix := " no-failing-input-found"
+				if replayed, note := engine.TryReplay(w, r, o, path); replayed {
+					suffix = ""
+					_ = note
+				}
+				violLines = append(violLines, fmt.Sprintf("VIOLATION property=%s replay=%s obligation=%s (%s at %s)%s", *prop, path, o.Name, o.Msg, o.Pos, suffix))
+				nViol++
+			default:
+				path := writeReplay(*replayDir, *prop, o.Name, "", o)
+				violLines = append(violLines, fmt.Sprintf("VIOLATION property=%s replay=%s obligation=%s undecided (%s at %s) no-failing-input-found", *prop, path, o.Name, o.Msg, o.Pos))
+				nViol++
+			}
+		}
+	}
+	for _, l := range knownLines {
+		fmt.Println(l)
+	}
+	for _, l := range violLines {
+		fmt.Println(l)
+	}
+	wall := time.Since(t0).Seconds()
+	fmt.Printf("govc: property=%s tier=%s harnesses=%d obligations=%d discharged=%d covers=%d known-findings=%d violations=%d load=%.1fs gen=%.1fs wall=%.1fs\n",
+		*prop, *tier, len(hs), nObl, nDis, nCover, nKnown, nViol, loadSec, genSec, wall)
+
+	if *out != "" {
+		var tb []string
+		for t := range trusted {
+			tb = append(tb, t)
+		}
+		sort.Strings(tb)
+		sort.Strings(fnsUnder)
+		if len(samples) == 0 {
+			for _, ev := range evObls {
+				samples = append(samples, ev)
+				if len(samples) >= 3 {
+					break
+				}
+			}
+		}
+		ev := map[string]interface{}{
+			"property_id": *prop,
+			"tier":        *tier,
+			"seed":        seed,
+			"level":       "proof",
+			"wall_s":      round3(wall),
+			"violations":  nViol,
+			"coverage": map[string]interface{}{
+				"obligations":               nObl,
+				"discharged":                nDis,
+				"checker_cmd":               "govc check -prop " + *prop + " -tier " + *tier + " (go/ssa weakest-precondition style symbolic execution of /repo working tree with -tags verif; z3 5.1.0 | z3 4.8.12 | cvc5 1.0 portfolio)",
+				"trusted_base":              tb,
+				"functions_under_contract":  fnsUnder,
+				"harnesses":                 len(hs),
+				"vacuity_covers":            nCover,
+				"known_finding_obligations": nKnown,
+				"discharged_by_solver":      bySolver,
+				"solver_seconds":            round3(solverSec),
+				"load_seconds":              round3(loadSec),
+				"generation_seconds":        round3(genSec),
+				"integer_semantics":         "bit-vectors of exact Go width (int/uint = 64 bit); floats as bit patterns with uninterpreted arithmetic",
+				"obligation_list":           evObls,
+				"samples":                   samples,
+			},
+			"assumptions": tb,
+		}
+		b, _ := json.MarshalIndent(ev, "", " ")
+		os.MkdirAll(filepath.Dir(*out), 0o755)
+		if err := os.WriteFile(*out, b, 0o644); err != nil {
+			fmt.Fprintln(os.Stderr, err)
+			return 2
+		}
+	}
+	if nViol > 0 {
+		return 1
+	}
+	return 0
+}
+
+func targetSuffix(h *engine.Harness) string {
+	if h.Target != "" {
+		return " (contract of " + h.Target + ")"
+	}
+	return ""
+}
+
+func firstLine(s string) string {
+	if i := strings.Index(s, "\n"); i >= 0 {
+		return s[:i]
+	}
+	return s
+}
+
+func round3(f float64) float64 { return float64(int(f*1000+0.5)) / 1000 }
+
+func contains(l []string, s string) bool {
+	for _, x := range l {
+		if x == s {
+			return true
+		}
+	}
+	return false
+}
+
+func writeReplay(dir, prop, name, text string, o *engine.Obligation) string {
+	path := filepath.Join(dir, prop, smt.Sanitize(name)+".replay.txt")
+	var sb strings.Builder
+	fmt.Fprintf(&sb, "obligation: %s\n", name)
+	if o != nil {
+		fmt.Fprintf(&sb, "kind: %s\nposition: %s\nwhat: %s\nstatus: %s\nsolver: %s (%.2fs) others=%v\n", o.Kind, o.Pos, o.Msg, o.Status, o.Solver, o.Seconds, o.Others)
+		if len(o.Model) > 0 {
+			sb.WriteString("model (harness inputs):\n")
+			keys := make([]string, 0, len(o.Model))
+			for k := range o.Model {
+				keys = append(keys, k)
+			}
+			sort.Strings(keys)
+			for _, k := range keys {
+				fmt.Fprintf(&sb, "  %s = %s\n", k, o.Model[k])
+			}
+		}
+		fmt.Fprintf(&sb, "solver output:\n%s\n", truncate(o.Output, 4000))
+		smtPath := filepath.Join(dir, prop, smt.Sanitize(name)+".smt2")
+		os.WriteFile(smtPath, []byte(o.SMT()), 0o644)
+		fmt.Fprintf(&sb, "smt query: %s\n", smtPath)
+	}
+	if text != "" {
+		sb.WriteString(text + "\n")
+	}
+	os.MkdirAll(filepath.Dir(path), 0o755)
+	os.WriteFile(path, []byte(sb.String()), 0o644)
+	return path
+}
+
+func truncate(s string, n int) string {
+	if len(s) > n {
+		return s[:n] + "…"
+	}
+	return s
+}
